@@ -550,7 +550,7 @@ def act_fn(name):
 
 
 def gen_legacy_case(g):
-    n = g.randint(3, 6)
+    n = g.choice([3, 4, 5, 6, 8, 10, 12])
     m = g.randint(1, 3)
     fb = g.chance(0.5)
     trained = True if fb else g.chance(0.7)
